@@ -108,14 +108,31 @@ def _gen_case(res, case):
         cn_region = GRange(g.chr, a2, b2)
     else:
         cn_region = GRange(g.chr, a, b)
-    desc = {"db": db.label, "strand": g.strand, "planted": [list(c[:2]) for c in copies], "rl": rl,
-            "depth": depth, "neutral": [cn_region.start, cn_region.end]}
     # reference (profile) sample: two reference copies, also with deletions in the neutral region
     rc = db.reference_copy()
     rrds = reads.simulate(g, reads.haplotypes_for(g, [rc, rc]), rl=rl, depth=depth, ref=db.ref,
                           neutral=db.neutral, rng=rng)
     add_neutral_deletions(rrds, rng, db.neutral)
-    pbam = reads.write_bam(os.path.join(scratch, "prof.bam"), g.chr, db.contig_len, rrds)
+    # the neutral region on another contig (as CYP2D8 is for most genes), at coordinates that overlap the gene's
+    extra_contigs = ()
+    if rng.random() < 0.3:
+        gstart = min(r.start for gg in g.regions for r in gg.values())
+        delta = gstart + rng.randint(20, 200) - a
+        for lst in (rds, rrds):
+            for r in lst:
+                if r.get("hap") == -1:
+                    r["start"] += delta
+                    r["tid"] = 1
+        extra_contigs = (("N1", db.contig_len),)
+        cn_region = GRange("N1", cn_region.start + delta, cn_region.end + delta)
+    real_write = reads.write_bam
+
+    def write_bam(path, chrom, contig_len, rr):
+        return real_write(path, chrom, contig_len, rr, extra_contigs=extra_contigs)
+
+    desc = {"db": db.label, "strand": g.strand, "planted": [list(c[:2]) for c in copies], "rl": rl,
+            "depth": depth, "neutral": [cn_region.chr, cn_region.start, cn_region.end]}
+    pbam = write_bam(os.path.join(scratch, "prof.bam"), g.chr, db.contig_len, rrds)
     prof = Profile.load(g, pbam, cn_region)
     # 3. the profile sample against its own profile
     s_self = Sample(g, prof, pbam)
@@ -124,18 +141,18 @@ def _gen_case(res, case):
             res.check("self_profile_two", close(v, 2.0),
                       "profile sample against its own profile does not read 2.0", region=[gi, r], got=v, **desc)
     # sample S
-    bam = reads.write_bam(os.path.join(scratch, "s.bam"), g.chr, db.contig_len, rds)
+    bam = write_bam(os.path.join(scratch, "s.bam"), g.chr, db.contig_len, rds)
     s1 = Sample(g, prof, bam)
     d1 = region_depths(s1)
     k = rng.choice([2, 3, 4, 5])
-    bamk = reads.write_bam(os.path.join(scratch, "sk.bam"), g.chr, db.contig_len, dup(rds, k))
+    bamk = write_bam(os.path.join(scratch, "sk.bam"), g.chr, db.contig_len, dup(rds, k))
     sk = Sample(g, prof, bamk)
     dk = region_depths(sk)
     for key in d1:
         res.check("duplication_invariant", close(d1[key], dk[key]),
                   "normalised region depth changes when every read is duplicated k times",
                   region=list(key), k=k, base=d1[key], duplicated=dk[key], **desc)
-    bamg = reads.write_bam(os.path.join(scratch, "sg.bam"), g.chr, db.contig_len, dup(rds, k, only_gene=True))
+    bamg = write_bam(os.path.join(scratch, "sg.bam"), g.chr, db.contig_len, dup(rds, k, only_gene=True))
     sg = Sample(g, prof, bamg)
     dg = region_depths(sg)
     for key in d1:
@@ -183,7 +200,7 @@ def _gen_case(res, case):
               outcome=why, **desc)
     # neutral region covered by the profile but not by the sample
     rds_no_neutral = [r for r in rds if r.get("hap") != -1]
-    bamn = reads.write_bam(os.path.join(scratch, "sn.bam"), g.chr, db.contig_len, rds_no_neutral)
+    bamn = write_bam(os.path.join(scratch, "sn.bam"), g.chr, db.contig_len, rds_no_neutral)
     try:
         Sample(g, prof, bamn)
         ok, why = False, "no exception"
